@@ -107,8 +107,10 @@ def leanchecker(mods):
 # theorem files that serve several properties: the correctness of the (transcribed) noncontiguous
 # compiler turns Tie A's per-instance validation of that automaton into a theorem for all pattern lists
 EXTRA_THEOREMS = {"C01": ["L1c.lean", "L1cDense.lean"], "C02": ["L1c.lean", "L1cDense.lean"], "C03": ["L1c.lean"], "C19": ["L1c.lean", "L1e.lean"],
-                  "C04": ["L1d.lean", "L1e.lean"], "C11": ["L1cFold.lean"], "C16": ["L1d.lean", "L1e.lean"],
-                  "C15": ["C06.lean"]}
+                  "C04": ["L1d.lean", "L1e.lean", "L1dIds.lean"], "C11": ["L1cFold.lean"],
+                  "C16": ["L1d.lean", "L1e.lean", "L1dIds.lean", "L1cIds.lean"],
+                  "C15": ["C06.lean", "L1dIds.lean", "L1eSafe.lean", "L1cIds.lean"],
+                  "C08": ["C07Transfer.lean"], "C18": ["C07Transfer.lean"]}
 
 
 def audit_theorems(prop, recheck=False):
@@ -261,7 +263,17 @@ REF_CFG = None  # pairwise mode (C04): compare a configuration with this referen
 ANCH_ERRS = ("err-anchored", "err-unanchored")
 
 
+STILL_PRED = None  # optional extra predicate (line, cfg, impl, model) a shrunk case must keep
+
+
 def still_fails(line, cfg):
+    r = _still_fails(line, cfg)
+    if r and STILL_PRED is not None and not STILL_PRED(line, cfg, r[0], r[1]):
+        return None
+    return r
+
+
+def _still_fails(line, cfg):
     op, kv = parse_req(line)
     if REF_CFG is not None:
         kv["cfgs"] = cfg + ";" + REF_CFG
